@@ -495,12 +495,17 @@ def build_graph(b, upto=None, track=True) -> Graph:
         g.stage("Buffer", [], lambda: psf_n)                                         # 4
         if done():
             raise StopBuild
-        data = g.stage("Array2D", [2], lambda: aa.Array2D.no_mask(values=data_n, pixel_scales=scales,
-                                                                   origin=origin))  # 5
+        def mk_arr(vals_n):
+            if b.get("ds_store_native"):
+                # both settings of the storage flag: natively stored data / noise-map handed to the dataset
+                mk0 = aa.Mask2D.all_false(shape_native=(h, w), pixel_scales=scales, origin=origin)
+                return aa.Array2D(values=vals_n, mask=mk0, store_native=True)
+            return aa.Array2D.no_mask(values=vals_n, pixel_scales=scales, origin=origin)
+
+        data = g.stage("Array2D", [2], lambda: mk_arr(data_n))  # 5
         if done():
             raise StopBuild
-        noise = g.stage("Array2D", [3], lambda: aa.Array2D.no_mask(values=noise_n, pixel_scales=scales,
-                                                                    origin=origin))  # 6
+        noise = g.stage("Array2D", [3], lambda: mk_arr(noise_n))  # 6
         if done():
             raise StopBuild
         psf = g.stage("Kernel2D", [4], lambda: aa.Kernel2D.no_mask(values=psf_n, pixel_scales=scales))  # 7
@@ -1224,6 +1229,7 @@ def dataset_build(rng, m, inversion=False, d9b=False):
          "model": [q(_dy(rng, -2, 8)) for _ in range(n_un)],
          "sub": rng.choice([1, 2]), "sub_pix": rng.choice([1, 2]),
          "normalize_psf": rng.random() < 0.7, "use_mask_in_fit": rng.random() < 0.3,
+         "ds_store_native": rng.random() < 0.35,
          "submasks": [mask_json(_rand_submask(rng, m)) for _ in range(2)]}
     if inversion:
         nm = rng.choice([1, 1, 2])
